@@ -189,6 +189,63 @@ def _log_switch_rule(prog, chk, R):
     # the switch is fixed at construction: nothing but constructors writes it
     wr = sorted({f.short for f in R.sim_methods() if f.body for x in SX.walk(f.body) for w in [SX.write_target(x)] if w and SX.is_this_member(SX.strip(w[0]), flag)})
     chk.ob('R18.6', R.sim['name'], 'qasm_simulator', not wr, 'the logging switch is set by the constructor only (also written in: %s)' % wr, key='log-switch:const', nontrivial=False)
+    # the evaluator's copy of the switch (the constructor argument it forwards to the simulator) decides nothing either: no change of
+    # evaluator or simulator state is conditional on it
+    simname = R.sim['name']
+    evfile = R.ev_method('execute').file
+    fns = [f for f in prog.functions if f.body and f.file == evfile]
+    flags = set()
+    for f in fns:
+        for x in SX.walk(f.body, into_lambdas=False):
+            if x.get('k') == 'construct' and x.get('type') == simname:
+                for a in x.get('args') or []:
+                    a = SX.strip(a)
+                    if SX.is_node(a) and a.get('k') == 'member' and SX.is_this_member(a) and a.get('t') == 'bool':
+                        flags.add(a['name'])
+    if not flags:
+        raise AnalysisBroken('the evaluator constructs its simulator without a logging switch of its own')
+    reads = 0
+    for f in fns:
+        if not any(x.get('k') == 'member' and x.get('name') in flags for x in SX.walk(f.body, into_lambdas=False)):
+            continue
+        g = prog.cfg(f)
+        tainted = set()
+        for x in SX.walk(f.body, into_lambdas=False):
+            if x.get('k') == 'var' and SX.is_node(x.get('init')) and any(y.get('k') == 'member' and y.get('name') in flags and SX.is_this_member(y) for y in SX.walk(x['init'])) \
+                    and not any(y.get('k') == 'construct' and y.get('type') == simname for y in SX.walk(x['init'])):
+                tainted.add(x['id'])
+
+        def on_flag(ce):
+            return any((y.get('k') == 'member' and y.get('name') in flags and SX.is_this_member(y)) or (y.get('k') == 'ref' and y.get('id') in tainted) for y in SX.walk(ce))
+        for node in g.nodes:
+            if not SX.is_node(node.e):
+                continue
+            if node.kind == 'edge':
+                if on_flag(node.e):
+                    reads += 1
+                continue
+            if node.kind not in ('assign', 'incdec', 'call'):
+                continue
+            if not [1 for ce, pol, ed in g.guards(node) if on_flag(ce)]:
+                continue
+            e = node.e
+            w = SX.write_target(e)
+            bad = None
+            if w:
+                root = SX.strip(w[0])
+                while SX.is_node(root) and root.get('k') in ('index', 'member') and not SX.is_this_member(root):
+                    root = SX.strip(root.get('base'))
+                if SX.is_this_member(root):
+                    bad = 'write to ' + root['name']
+            for c in SX.walk(e, into_lambdas=False):
+                if c.get('k') == 'mcall' and not c.get('constm', True):
+                    o = SX.strip(c.get('obj'))
+                    if SX.is_node(o) and (o.get('k') == 'this' or SX.is_this_member(o)):
+                        bad = 'call of %s' % SX.show(c)[:60]
+            chk.ob('R18.6', f, node.ln or f.ln, bad is None,
+                   'in %s a %s is conditional on the evaluator\'s per-shot logging switch: only the last shot of a run logs, so the other shots then differ from a fresh run' % (
+                       f.short, bad), key='ev-log-switch:%s:%s' % (f.short, bad))
+    chk.ob('R18.6', R.ev['name'], 'runtime_evaluator', True, '', key='ev-log-switch:%s' % ','.join(sorted(flags)), nontrivial=False)
 
 
 def _fresh_locals(f):
